@@ -31,7 +31,9 @@ META = {
                   "mixed. Binary level: `adlt remote` is started, a 1.7 M message log is opened paused / one_pass so that the "
                   "parser parks on the full channels, the client vanishes without close; the server's thread census "
                   "(/proc/<pid>/task) has to return to the pre-connection value within 30 s and a new connection has to be "
-                  "served (PipelineRemoteTrace.tla). Every run also follows the lifecycle table incrementally by refresh index (the remote.rs "
+                  "served (PipelineRemoteTrace.tla); `adlt convert` (its own wiring, production capacities - no Full there) is run on a "
+                  "generated log plain / sorted / filtered and compared with the library stages on the same log, and with -o "
+                  "/dev/full (the writer thread fails: the process has to end). Every run also follows the lifecycle table incrementally by refresh index (the remote.rs "
                   "rule) from the consumer and from a separate thread; the folded view must equal the final table for the ids of "
                   "the final table (judged in complete runs only, not after a consumer drop). Long stalls: a few cases per run hold the producer (2.6-3.5 s, thorough also 6 s) or the "
                   "consumer (2.6-3.2 s) once at a chosen index; a stage time-out longer than that is not exercised. Streams are clean boots (monotone reception times, sane timestamps): detector corner "
@@ -168,16 +170,28 @@ def remote_selftest(ctx, rcases):
     v = list(evs); v[ci] = dict(evs[ci], threads_after=evs[ci]["threads_after"] + 3); variants.append(("threads-stay", v))
     v = list(evs); v[ri] = dict(evs[ri], ok=False); variants.append(("no-service", v))
     v = list(evs); v.insert(ci, {"ev": "server_exit", "status": "signal: 6"}); variants.append(("server-died", v))
+    expect = {1, 2, 3}
     for name, vv in variants:
         out.append(dict(vv[0], case=n)); out.extend(vv[1:]); n += 1
+    for k in [k for k in sorted(rcases) if rcases[k][0]["hdr"]["kind"] == "convert" and rcases[k][0]["hdr"]["shape"] == "plain"][:1]:
+        evs = rcases[k]
+        oi = [i for i, e in enumerate(evs) if e["ev"] == "convert_out"][0]
+        xi = [i for i, e in enumerate(evs) if e["ev"] == "convert_exit"][0]
+        for name, idx, ch in (("control", oi, {}), ("lost", oi, {"count": evs[oi]["count"] - 1}), ("reordered", oi, {"seq": (evs[oi]["seq"] + 1) % 2147483647}),
+                              ("other-messages", oi, {"bag": (evs[oi]["bag"] + 1) % 2147483647}), ("hung", xi, {"timed_out": True})):
+            v = list(evs); v[idx] = dict(evs[idx], **ch)
+            out.append(dict(v[0], case=n)); out.extend(v[1:])
+            if name != "control":
+                expect.add(n)
+            n += 1
     path = ctx.path("selftest-remote.ndjson")
     with open(path, "w") as f:
         for e in out:
             f.write(json.dumps(e) + "\n")
     v = c.validate_trace(ctx, "selftest-remote", "PipelineRemoteTrace.tla", path)
-    if v.violations != {1, 2, 3}:
-        raise c.ToolError("binding self-test failed: PipelineRemoteTrace rejected %s, expected [1, 2, 3]" % sorted(v.violations))
-    ctx.extra["binding_selftest_remote"] = {"corrupted_rejected": 3, "controls_accepted": 1}
+    if v.violations != expect:
+        raise c.ToolError("binding self-test failed: PipelineRemoteTrace rejected %s, expected %s" % (sorted(v.violations), sorted(expect)))
+    ctx.extra["binding_selftest_remote"] = {"corrupted_rejected": len(expect), "controls_accepted": n - len(expect)}
 
 
 def check(ctx):
@@ -200,7 +214,9 @@ def check(ctx):
     adlt = c.build_adlt_bin()
     rtrace = ctx.path("trace-remote.ndjson")
     shapes = "onepass_parked,control_small" if quick else "onepass_parked,control_small,paused_parked,while_parsing,while_streaming,mid_frame,onepass_parked"
-    rproc = subprocess.Popen([binp, "--remote-drop", shapes, "--adlt", adlt, "--work", ctx.work, "--out", rtrace],
+    cshapes, cn = ("plain,full,devfull", "30000") if quick else ("plain,sort,filter,plugin,full,devfull,full", "300000")
+    rproc = subprocess.Popen([binp, "--remote-drop", shapes, "--convert", cshapes, "--convert-n", cn, "--seed", str(ctx.seed),
+                              "--adlt", adlt, "--work", ctx.work, "--out", rtrace],
                              stdout=subprocess.PIPE, stderr=subprocess.STDOUT, text=True, errors="replace")
     # (c,d) real pipelines under these scripts + seeded random scripts
     tot = drive_sharded(ctx, binp, ["--scenarios", scn, "--random", str(nrand), "--seed", str(ctx.seed), "--max-len", str(maxlen),
@@ -221,10 +237,11 @@ def check(ctx):
     cases = c.split_cases(trace)
     ctx.evaluations = tot["cases"] + len(rcases)
     ctx.traces_validated = tot["cases"] - len(v.violations) + len(rcases) - len(vr.violations)
-    rst = {"cases": len(rcases), "shapes": {}, "parked_with_backpressure": 0, "max_census_wait_ms": 0}
+    rst = {"cases": len(rcases), "shapes": {}, "parked_with_backpressure": 0, "max_census_wait_ms": 0, "convert_messages_compared": 0}
     for k, evs in rcases.items():
         h = evs[0]["hdr"]
-        rst["shapes"][h["shape"]] = rst["shapes"].get(h["shape"], 0) + 1
+        rst["shapes"][h["kind"] + ":" + h["shape"]] = rst["shapes"].get(h["kind"] + ":" + h["shape"], 0) + 1
+        rst["convert_messages_compared"] += sum(e["count"] for e in evs if e["ev"] == "convert_out")
         for e in evs:
             if e["ev"] == "census":
                 rst["max_census_wait_ms"] = max(rst["max_census_wait_ms"], e["waited_ms"])
@@ -306,6 +323,8 @@ def check(ctx):
                 raise c.ToolError("vacuous run: no case with path %s (%s)" % (k, st))
         if tot["skipped_ref"] * 4 > nscn + nrand:
             raise c.ToolError("too many reference runs failed (%d): the stream generator left the clean domain" % tot["skipped_ref"])
+        if rst["convert_messages_compared"] == 0:
+            raise c.ToolError("vacuous run: no convert output compared (%s)" % rst)
         if rst["parked_with_backpressure"] == 0:
             raise c.ToolError("vacuous run: no remote-drop case reached the parked / back-pressured state (%s)" % rst)
         binding_selftest(ctx, cases, set(cases))
